@@ -1,6 +1,6 @@
 (* Entry point for the extracted executable (C05 and C08): decodes cases, runs the model. *)
 From Coq Require Import List NArith Bool.
-From CV Require Import Base.Bytes Names.Defs Names.LexDefs.
+From CV Require Import Base.Bytes Names.Defs Names.LexDefs Names.FindDefs.
 Import ListNotations.
 Local Open Scope N_scope.
 
@@ -38,8 +38,35 @@ Definition run_lex (phase1 : bool) (s : str) : list str :=
   else if existsb is_marker l then []
   else flat_map enc_tok l.
 
+(* overload cases: nf, then per function np nd t1..tnp, then the argument types; types are codes 0..10 =
+   short ushort int uint long ulong llong ullong float double ldouble. result: model index | "-", C++ best index | "-" *)
+Definition nat_of (s : str) : nat := match N_of_dec s with Some n => N.to_nat n | None => 0 end.
+Definition ty_of (s : str) : aty :=
+  nth (nat_of s) [mkTy TShort false; mkTy TShort true; mkTy TInt false; mkTy TInt true; mkTy TLong false; mkTy TLong true;
+                  mkTy TLLong false; mkTy TLLong true; mkTy TFloat false; mkTy TDouble false] (mkTy TLDouble false).
+Fixpoint take_sigs (n : nat) (l : list str) : list fsig * list str :=
+  match n with
+  | O => ([], l)
+  | S n' => match l with
+            | np :: nd :: r =>
+                let k := nat_of np in
+                let '(fs, r') := take_sigs n' (skipn k r) in
+                (mkSig (map ty_of (firstn k r)) (nat_of nd) :: fs, r')
+            | _ => ([], [])
+            end
+  end.
+Definition show_opt (o : option nat) : str := match o with Some i => dec_of_N (N.of_nat i) | None => [45] end.
+Definition run_ff (l : list str) : list str :=
+  match l with
+  | nf :: r => let '(fs, args) := take_sigs (nat_of nf) r in
+               let a := map ty_of args in
+               [show_opt (find_function fs a); show_opt (best_viable fs a)]
+  | [] => [[63]]
+  end.
+
 Definition run (fields : list str) : list str :=
   match fields with
+  | [102; 102] :: r => run_ff r                       (* ff *)
   | [[108; 101; 120]; s] => run_lex false s          (* lex *)
   | [[108; 101; 120]] => run_lex false []
   | [[108; 101; 120; 49]; s] => run_lex true s       (* lex1 *)
